@@ -208,6 +208,13 @@ class TemplateData(object):
             self.waiting_for_qa_info_meaning = False
             self.waiting_for_1st_order_stats_meaning = False
             self.waiting_for_difference_stats_meaning = False
+            # The nodes that give associated fields, first order statistics and difference
+            # statistics their meaning belong to the subset. A subset that has none of its
+            # own, e.g. because it stands under a replication that is not executed, must not
+            # be given the one of the subset before it.
+            self.associated_field_meaning = None
+            self.first_order_stats_meaning = None
+            self.difference_stats_meaning = None
 
             self.wire_members(self.template.members)
 
@@ -239,7 +246,8 @@ class TemplateData(object):
         # Read associated field if exists
         if self.nbits_associated_list and descriptor.X != 31:
             assoc_node = AssociatedFieldNode(*self.get_next_descriptor_and_index())
-            assoc_node.add_attribute(self.associated_field_meaning)
+            if self.associated_field_meaning is not None:
+                assoc_node.add_attribute(self.associated_field_meaning)
             node = ValueDataNode(*self.get_next_descriptor_and_index())
             node.add_attribute(assoc_node)
             self.add_node(node)
@@ -351,7 +359,8 @@ class TemplateData(object):
                 self.add_value_node()
             else:
                 node = self.add_node(FirstOrderStatsNode(*self.get_next_descriptor_and_index()))
-                node.add_attribute(self.first_order_stats_meaning)
+                if self.first_order_stats_meaning is not None:
+                    node.add_attribute(self.first_order_stats_meaning)
                 self.wire_bitmap_attribute(node)
 
         elif operator_code == 225:  # difference stats
@@ -361,7 +370,8 @@ class TemplateData(object):
                 self.add_value_node()
             else:
                 node = self.add_node(DifferenceStatsNode(*self.get_next_descriptor_and_index()))
-                node.add_attribute(self.difference_stats_meaning)
+                if self.difference_stats_meaning is not None:
+                    node.add_attribute(self.difference_stats_meaning)
                 self.wire_bitmap_attribute(node)
 
         elif operator_code == 232:  # replaced/retained value
